@@ -133,6 +133,14 @@ CHECKS["C07"] = dict(
     note="Trusted: TLC, Json, the dumper (field copies, 16-bit split, VerifStringConstants), BytecodeVM as a reading of vm.go. MC bound <=3 words; FrameLimit 200; sources compiled, never executed.",
     specs=["Bytecode", "BytecodeTrace", "BytecodeVM", "BytecodeMC"])
 
+CHECKS["C10"] = dict(
+    technique="TLA+ ApiStackImpl (transcribed registry/LocalBase/call-return code) model-checked by TLC to refine the abstract per-activation lists of ApiStack; spec-generated histories replayed on the real LState inside nested host functions and validated by ApiStackTrace; object-level API methods validated against the Lua expression and LuaSem's operator definitions by ApiObjTrace",
+    category="model_checking",
+    text="List semantics of Push/Pop/Get/SetTop/Insert/Remove/Replace/GetTop and the Call/PCall/CallByParam/host-return contract are model-checked exhaustively on the transcribed algorithm (lists <=3, indices -5..5, depth <=3, every NRet/protected flag, full/one-free-slot/non-growing register file); every transition of that graph, simulated 40-op histories and the complete (nargs, NRet, produced, callee kind, protected, failing) family run on the real code at non-zero LocalBase, across registry growth, inside a coroutine and at top level, TLC deciding every re-read. The 15 object-level methods are compared with the Lua expression on every operand pair of a metatable-rich world (API = Lua required outright; = LuaSem wherever the model decides).",
+    design_ref="DESIGN.md section 4 C10",
+    note="Trusted: fidelity of the transcription (bound through replay), LuaSem/LuaValues for operators. Programmer errors (Pop(k>n), Insert beyond n+1, pseudo-indices) excluded; error texts not compared.",
+    specs=["ApiStack", "ApiStackImpl", "ApiStackTrace", "ApiObjTrace", "LuaSem"])
+
 NOT_YET = {}
 
 
